@@ -32,7 +32,7 @@ Say(ok, how) == PrintT(<<"VERDICT", l, ok, how>>) /\ (Inventory \/ ok)
 Top(e) == e.val.type
 \* the server applies the (buf.validate) rules of the message: a value that breaks a required rule is
 \* not one it accepts or sends, so its JSON form is not at stake there (codecs do not look at rules)
-RuleRefuses(e) == e.server /\ ~SatisfiesRequired(schema, e.val)
+RuleRefuses(e) == e.server /\ ~SatisfiesRules(schema, e.val)
 FormHow(e) ==
   IF RuleRefuses(e) THEN "not_an_accepted_value"
   ELSE IF e.ok /\ Canon(e.json) = Enc(schema, e.val) THEN "contract"
